@@ -33,6 +33,44 @@ where
     ControlFlow::Continue(())
 }
 
+/// length of the character starting at `b[i]` if it is one of eight known whitespace characters
+/// (space, tab, LF, CR, U+0085, U+00A0, U+2003, U+3000), else 0
+fn known_whitespace_at(b: &[u8], i: usize) -> usize {
+    let n = b.len() - i;
+    let c0 = b[i];
+    if c0 == b' ' || c0 == b'\t' || c0 == b'\n' || c0 == b'\r' {
+        return 1;
+    }
+    if n >= 2 && c0 == 0xC2 && (b[i + 1] == 0x85 || b[i + 1] == 0xA0) {
+        return 2;
+    }
+    if n >= 3 && ((c0 == 0xE2 && b[i + 1] == 0x80 && b[i + 2] == 0x83) || (c0 == 0xE3 && b[i + 1] == 0x80 && b[i + 2] == 0x80)) {
+        return 3;
+    }
+    0
+}
+
+/// stand-in for `next_token` that can be replayed against the real lexer: it skips the longest prefix made of the
+/// eight whitespace characters above (the real `skip_whitespace` skips these too) and then declines. Unlike
+/// `next_token_declines` it never skips text the real lexer would not skip, so a counterexample is an input on which
+/// the real `next_token` behaves the same way up to the point of interest.
+pub fn next_token_skips_known_whitespace<'s>(l: &mut Lexer<'s>) -> ControlFlow<(Token<'s>, Range<usize>)>
+where
+    's: 's,
+{
+    let rest = l.verif_rest().as_bytes();
+    let mut n = 0;
+    while n < rest.len() {
+        let w = known_whitespace_at(rest, n);
+        if w == 0 {
+            break;
+        }
+        n += w;
+    }
+    l.verif_bump(n);
+    ControlFlow::Continue(())
+}
+
 fn check_span(s: &str, lx: &Lexer<'_>, span: &Range<usize>) {
     assert!(span.start == 0, "token does not start at the cursor");
     assert!(span.end > 0, "empty token: the lexer would not advance");
@@ -147,13 +185,14 @@ shebang!(c06_shebang_4, 4, 7);
 
 /// The parser's token layer (`Parser::next`, through hook H8) on every UTF-8 string of <= N bytes: whatever it
 /// reports - a token, an invalid-token error, the end-of-input error, or `run_parser`'s "failed to parse the entire
-/// input" - cites a location inside the file whose ends lie on character boundaries. The recognisers are replaced by
-/// `next_token_declines` as in `c06_err_span_*` (they have their own harnesses).
+/// input" - cites a location inside the file whose ends lie on character boundaries. The recognisers (which have their
+/// own harnesses) are replaced by `next_token_skips_known_whitespace`: leading whitespace drawn from eight characters
+/// is skipped, then nothing is recognised - so a counterexample replays against the real lexer.
 macro_rules! parser_next {
     ($name:ident, $n:expr, $unwind:expr) => {
         #[cfg_attr(kani, kani::proof)]
         #[cfg_attr(kani, kani::unwind($unwind))]
-        #[cfg_attr(kani, kani::stub(roto::parser::lexer::Lexer::next_token, next_token_declines))]
+        #[cfg_attr(kani, kani::stub(roto::parser::lexer::Lexer::next_token, next_token_skips_known_whitespace))]
         pub fn $name() {
             let b: Bytes<$n> = Bytes::any();
             if let Some(s) = b.as_str() {
@@ -177,7 +216,12 @@ macro_rules! parser_next {
                         cover!(loc.start == s.len() && s.len() == $n && !s.is_ascii(), "end_of_input_after_non_ascii_text");
                         cover!(loc.end > loc.start, "invalid_token");
                     }
-                    Some(Ok(_)) => assert!(false, "no recogniser fired, yet a token was returned"),
+                    Some(Ok(tok)) => {
+                        // only the native replay (real recognisers) gets here
+                        #[cfg(kani)]
+                        assert!(false, "no recogniser fired, yet a token was returned");
+                        assert!(inside(tok), "token span outside the file or inside a character");
+                    }
                     None => assert!(false, "the parser closure did not run"),
                 }
                 if let Err(e) = r {
